@@ -197,7 +197,8 @@ def _new_result():
     return dict(paths=0, claims=0, discharged=0, cex=0, inconclusive=0, cands={}, goals={},
                 goal_witness={}, witnesses_ok=0, witnesses_diverged=0, witnesses_mismatch=0,
                 mismatch_samples=[], samples=[], funcs=[], stats={}, errors=[], inconclusive_list=[],
-                claims_by_clause={}, loop_bound_exceeded=0, paths_by_shape={})
+                claims_by_clause={}, loop_bound_exceeded=0, paths_by_shape={}, fp_checked=0, fp_unsat=0, fp_sat=0,
+                fp_other=0, fp_solver_s=0.0)
 
 
 def run_task(task):
@@ -212,6 +213,7 @@ def run_task(task):
         e = Engine(timeout_ms=eo.get("timeout_ms", 5000), nlsat=eo.get("nlsat", False),
                    assert_timeout_ms=eo.get("assert_timeout_ms"))
         core.MERGE[0] = eo.get("merge", True)
+        core.SIMPLIFY[0] = eo.get("simplify", True)
         set_engine(e)
         ctx = Ctx(e, M)
         M.restore()
@@ -253,7 +255,36 @@ def run_task(task):
                 else:
                     negz = core._b(neg)
                     r = e_.check(negz, timeout=e_.assert_timeout_ms)
-                if r == "unsat":
+                if r == "unsat" and c.info and c.info.get("fp"):
+                    # bit-precise second opinion (binary64, round to nearest even) on the same path
+                    from . import fp as _fp
+                    t_fp = time.time()
+                    verdict, fvals = _fp.check_fp(e_.pc, [negz], timeout_ms=eo.get("fp_timeout_ms", 120000))
+                    res["fp_solver_s"] += time.time() - t_fp
+                    res["fp_checked"] += 1
+                    if verdict == "unsat":
+                        res["fp_unsat"] += 1
+                        res["discharged"] += 1
+                    elif verdict == "sat":
+                        res["fp_sat"] += 1
+                        res["cex"] += 1
+                        key = f"{c.prop}:{hname}:{c.clause}:{c.sig}:float64"
+                        lst = res["cands"].setdefault(key, [])
+                        if len(lst) < max_cands:
+                            vals = []
+                            for name, kind, var in e_.fresh_log:
+                                if kind == core.FIN:
+                                    vals.append(fvals.get(str(var), 0.0))
+                                else:
+                                    vals.append({core.PINF: math.inf, core.NINF: -math.inf, core.NAN: math.nan}[kind])
+                            lst.append(dict(prop=c.prop, clause=c.clause, sig=c.sig, harness=hname, shape=shape,
+                                            choices=list(e_.choices), values=_jsonable(vals), info=c.info, key=key))
+                    else:
+                        res["fp_other"] += 1
+                        res["inconclusive"] += 1
+                        if len(res["inconclusive_list"]) < 5:
+                            res["inconclusive_list"].append(f"{hname}:{c.prop}:{c.clause}:float64:{verdict}")
+                elif r == "unsat":
                     res["discharged"] += 1
                 elif r == "sat":
                     res["cex"] += 1
@@ -355,7 +386,8 @@ def unjson_values(vals):
 
 def merge(total, res):
     for k in ("paths", "claims", "discharged", "cex", "inconclusive", "witnesses_ok",
-              "witnesses_diverged", "witnesses_mismatch", "loop_bound_exceeded"):
+              "witnesses_diverged", "witnesses_mismatch", "loop_bound_exceeded", "fp_checked", "fp_unsat", "fp_sat",
+              "fp_other", "fp_solver_s"):
         total[k] += res[k]
     for k, v in res["goals"].items():
         total["goals"][k] = total["goals"].get(k, 0) + v
